@@ -200,10 +200,27 @@ def check_invariant_orders(ctx, seed, tmpl, depth):
     replay = {"kind": "inv-orders", "seed": seed, "tmpl": tmpl, "depth": depth}
 
     def normed(run):
-        return {r.name: norm_result(r, run, False) for r in run.results}
+        # + the reported call sequences of every test: (target, function) per call, as a sorted list over its counterexamples
+        reports = c15.parse_reports(run.stdout)
+        out = {}
+        for r in run.results:
+            nr = norm_result(r, run, False)
+            seqs = sorted(tuple((c[0], c[1]) for c in blk["calls"]) for blk in reports.get(r.name, []) if not blk["probe"])
+            nr["sequences"] = seqs
+            for sq in seqs:
+                if len(sq) > depth:
+                    ctx.violation(f"call-sequence-longer-than-depth|{scn.kind}",
+                                  f"{scn.name}.{r.name}: reported sequence {sq} has {len(sq)} calls at invariant_depth={depth}",
+                                  dict(replay))
+            out[r.name] = nr
+        return out
 
     base = normed(run_cfg(desc, others, invariant_depth=depth))
     n = len(scn.invs)
+    # the printed sequences must be real paths from setUp: replay them on the reference EVM, for the original and the reversed order
+    rev = c15.make_item(seed, tmpl, depth)
+    rev["scn"].invs = list(reversed(rev["scn"].invs))
+    c15.check_scenarios(ctx, [it, rev])
     orders = list(itertools.permutations(range(n))) if n <= 3 else \
         [tuple(range(n)), tuple(reversed(range(n))), tuple(list(range(1, n)) + [0]), tuple([n - 1] + list(range(n - 1)))]
     for order in orders[1:]:
@@ -959,7 +976,7 @@ def correspond(ctx):
     ntests = 3 if ctx.tier == "quick" else 4
     for _ in range(ctx.scale(3, 10)):
         specs.append((ctx.rng.randrange(1 << 40), ntests, False))
-    inv = [(ctx.rng.randrange(1 << 40), c15.TEMPLATES.index(c15.s_counter), 2), (ctx.rng.randrange(1 << 40), c15.TEMPLATES.index(c15.s_toggle), 2)]
+    inv = [(ctx.rng.randrange(1 << 40), c15.TEMPLATES.index(c15.s_counter), 2), (ctx.rng.randrange(1 << 40), c15.TEMPLATES.index(c15.s_toggle), 3)]
     if ctx.tier != "quick":
         inv += [(ctx.rng.randrange(1 << 40), t, 2) for t in range(len(c15.TEMPLATES))]
     inv = inv[: ctx.scale(2, 12)]
